@@ -244,9 +244,20 @@ func (c *Ctx) Restore(d Dropped) {
 }
 
 func (c *Ctx) HoldSince(m Mark) bool {
+	perRule := map[string]int{}
 	for _, o := range c.Obs[m.n:] {
 		if o.Status != Holds {
 			return false
+		}
+		perRule[o.Rule]++
+	}
+	// a rule that matched fewer instances than its hand-confirmed minimum does not hold either
+	// (only meaningful for a mark taken before the property's rules ran)
+	if m.n == 0 {
+		for id, min := range c.Mins {
+			if perRule[c.Prop+"."+id] < min {
+				return false
+			}
 		}
 	}
 	return true
